@@ -37,6 +37,25 @@ CHECKS["C12"] = dict(
     technique="TLA+ state-machine spec + TLC exhaustive histories; behaviour export (BFS + simulation) replayed into code; trace validation",
     design="5 C12")
 
+CHECKS["C03"] = dict(
+    text=("Cursor.tla transcribes both code paths of read_as_int / read_as_bytes / _extract_bits (byte window, big-endian value, "
+          "shift, mask; aligned fast path) as actions and states C03 declaratively on the bit sequence; TLC checks them equal on "
+          "every 3-byte buffer over a 5-symbol alphabet x every (p, n) x both reads. Every row of that table is replayed on "
+          "RawPacketData, and real reads on random buffers up to 4 kB / thousands of bits are logged and re-evaluated by "
+          "Trace_Cursor (bit-sequence semantics, no 32-bit limit)."),
+    note="Only in-bounds reads (p+n <= 8*len) are claimed, as the property states; out-of-bounds behaviour belongs to C14. " + TRUSTED,
+    technique="TLA+ transcription of the case analysis, TLC exhaustive table + replay; logged calls re-evaluated by TLC",
+    design="5 C03")
+CHECKS["C13"] = dict(
+    text=("Header.tla defines Pack/Unpack/Valid and the create/reject/access steps; TLC checks RoundTrip, PackUnpack and "
+          "NothingBuiltWhenInvalid over all 2^16 values of each header word and over the boundary lattice {-1,min,mid,max,max+1}^6 "
+          "x 9 data lengths. The lattice is exported and replayed on create_ccsds_packet, the accessors and the framer; the real "
+          "functions are run on all 3 x 65536 word values (thorough; every 5th in quick), random field vectors and random framed "
+          "packets, each call logged and re-evaluated by Trace_Header."),
+    note="Non-integer arguments (TypeError path) are outside the property. " + TRUSTED,
+    technique="TLA+ spec of the header layout, TLC exhaustive per word + boundary lattice; replay and logged-call validation",
+    design="5 C13")
+
 NOT_YET = {}
 for _i in range(1, 21):
     _p = f"C{_i:02d}"
